@@ -116,8 +116,11 @@ class C28Trigger(Base):
             par = f'{q}/{a[1]}'
             b = rec['before'].get(par)
             if a[3] not in wfgen.STD and a[3] != 'finished' and \
-                    par in rec['start'] and b is not None and \
-                    b['status'] in FINAL and a[3] in b['outputs']:
+                    par in rec['start'] and b is not None and (
+                        b['status'] in FINAL or b['status'] == 'preparing'
+                    ) and a[3] in b['outputs']:
+                # (preparing: the re-run had just begun when the trigger
+                # came; outputs it holds are those of its previous job)
                 return True
         return False
 
